@@ -150,7 +150,7 @@ def replay(ob):
     import spglib
 
     w = ob.witness or {}
-    groups = ([w["sg"]] if "sg" in w else []) + [88, 225, 62, 194, 221, 14, 227, 136, 2]
+    groups = ([w["sg"]] if "sg" in w else []) + [47, 88, 225, 62, 194, 221, 14, 227, 136, 2]
     fails = []
     for sg in groups[:7]:
         L = _sym.letters_of(sg)
